@@ -1,14 +1,19 @@
 """C15  fn.asyncio() under an event loop matches the asynq result.
 
-Batch-free, tree-shaped programs (tasks, ConstFutures, None, non-futures, nested tuple/list/dict, raise, try/except at
-every yield, return and asynq.result(), plain synchronous calls) are interpreted on the REAL library in five ways:
+Batch-free, tree-shaped programs (tasks, ConstFutures, None, non-futures, nested tuple/list/dict of any width and depth,
+raise of Exceptions and of BaseException-only errors, try/except Exception and try/except BaseException at every yield,
+return and asynq.result() of every kind of object - exception instances, falsy / unhashable / awaitable / future-like
+objects, subclasses of the built-in containers -, plain synchronous calls) are interpreted on the REAL library in five ways:
   call    fn(args)                               value   fn.asynq(args).value()
   aio     `await fn.asyncio(args)` inside an observer coroutine (same contextvars context) under asyncio.run
   aiorun  asyncio.run(fn.asyncio(args))          aiotask ensure_future(fn.asyncio(args)) beside a flag-watching coroutine
-through plain functions, methods, pure functions, async_proxy functions and non-generator functions, with and without an
-explicit asyncio_fn.  The Lean model (AsynqModel.Lib.Asyncio) runs the same program (correspondence, per-task projection of
-the logs) and the Lean observer `Asyncio.spec` - proved of the model for every program
-(C15_spec_holds) - judges the implementation's observations on their own."""
+through plain functions, methods (bound and through the class), pure functions, async_proxy functions, asynq.async_call and
+non-generator functions, with positional and keyword arguments, with and without an explicit asyncio_fn; with fresh
+decorated functions for every run or one set shared by the five runs in a random order; first or second use.
+The Lean model (AsynqModel.Lib.Asyncio) runs the same program (correspondence, per-task projection of the logs) and the
+Lean observer `Asyncio.spec` - proved of the model for every program whose handlers do not catch BaseException or that
+raises no BaseException-only error (C15_spec_holds_partial; C15_base_handler_counterexample for the rest) - judges the
+implementation's observations on their own."""
 import hashlib
 import json
 import random
@@ -17,8 +22,8 @@ PID = "C15"
 LEVEL = "proof"
 LEAN_MODULES = ["AsynqModel.Theorems.C15"]
 THEOREMS = [
-    "AsynqModel.Asyncio.C15_equiv",
-    "AsynqModel.Asyncio.C15_equiv_run",
+    "AsynqModel.Asyncio.C15_equiv_partial",
+    "AsynqModel.Asyncio.C15_equiv_run_partial",
     "AsynqModel.Asyncio.C15_result_is_return",
     "AsynqModel.Asyncio.C15_mode_confined",
     "AsynqModel.Asyncio.C15_mode_confined_nested",
@@ -30,21 +35,33 @@ THEOREMS = [
     "AsynqModel.Asyncio.C15_gather_first_failure",
     "AsynqModel.Asyncio.C15_first_failure_wins",
     "AsynqModel.Asyncio.C15_shape",
-    "AsynqModel.Asyncio.C15_spec_holds",
+    "AsynqModel.Asyncio.C15_spec_holds_partial",
+    "AsynqModel.Asyncio.C15_gather_all_ok",
+    "AsynqModel.Asyncio.C15_failure_is_an_element",
+    "AsynqModel.Asyncio.C15_base_error_leaves_asyncio",
+    "AsynqModel.Asyncio.C15_base_error_delivered_by_asynq",
+    "AsynqModel.Asyncio.C15_base_handler_counterexample",
 ]
 BUILDS = {"quick": ["py"], "thorough": ["py", "cy"]}
-RULE = ("corpus (11 minimised programs), a fixed family (every call kind x explicit asyncio_fn x 14 body shapes; every child "
+RULE = ("corpus (16 minimised programs), a fixed family (every call kind x explicit asyncio_fn x 14 body shapes; every child "
         "kind under a bare and a gathered yield; dict/list/tuple whose FIRST failure in structure order is the slowest with a "
-        "slower success beside it; empty structures; synchronous calls of every kind) and grammar-generated batch-free "
-        "programs: 1-15 tasks, depth <= 5, yields of None / non-future / ConstFuture / proxy ConstFuture / child task / nested "
-        "tuple-list-dict (0-4 elements, 3 levels), raise / re-raise / return / result(), handler or no handler at every "
-        "yield, plain synchronous calls (the malformed stream: non-futures and synchronous calls under asyncio); each program "
-        "is run in five ways (call, value, aio, aiorun, aiotask). non-trivial = at least 2 tasks and (a failure delivered at a "
-        "yield or a nested structure); distinct by program hash")
+        "slower success beside it; empty structures; synchronous calls of every kind; BaseException-only errors raised by every "
+        "kind of child, first / second in structure order beside an ordinary failure, passing through an intermediate task), a "
+        "value family (13 unusual kinds of returned object x 7 places a value travels through x call kinds), SIZE families with "
+        "the size as a parameter (wide: one yield of 5..513 (thorough ..2049) entries with failures at chosen positions, list / "
+        "tuple / dict, nested or not; deep: containers nested 4..100 (..200) levels; long: one generator resumed 5..1001 (..2500) "
+        "times; chain: 6..100 (..200) tasks each awaiting the next) and grammar-generated batch-free programs: 1-15 tasks, depth "
+        "<= 5, yields of None / non-future / ConstFuture / proxy ConstFuture / child task / nested tuple-list-dict (0-4, "
+        "sometimes 5-40 elements, 3 levels), raise / raiseB / re-raise / return / result() of plain or unusual objects, handler "
+        "(except Exception or except BaseException) or no handler at every yield, plain synchronous calls (the malformed stream: "
+        "non-futures and synchronous calls under asyncio); each program is run in five ways (call, value, aio, aiorun, aiotask) "
+        "with fresh or shared decorated functions, first or second use. non-trivial = at least 2 tasks and (a failure delivered "
+        "at a yield or a nested structure); distinct by case hash")
 TRUSTED = [
     "hand-written Lean model AsynqModel.Lib.Asyncio tied to the code by this differential run only",
     "Python harness checks/c15.py (interpreter of the program language on the real decorators, identity tokens, "
-    "per-task projection of the event logs)",
+    "per-task projection of the event logs; for programs that raise BaseException-only errors the coroutine of a task is "
+    "awaited through a harness wrapper that logs the end of a task whose abandoned generator cannot)",
     "asyncio event loop, contextvars (ensure_future copies the context), CPython generator/with semantics",
 ]
 ASSUMPTIONS = [
@@ -52,9 +69,11 @@ ASSUMPTIONS = [
     "(logs are compared per task, never across tasks)",
     "programs are batch-free trees: every yielded future is created in the yield (no shared tasks, no batch items, no "
     "ErrorFuture / lazy Future, which resolve_awaitables does not know)",
-    "only Exception subclasses are raised by bodies; handlers are `except Exception`",
+    "BaseException-only errors are instances of a user-defined subclass of BaseException (KeyboardInterrupt, SystemExit and "
+    "asyncio.CancelledError, which the event loop itself interprets, are not raised; they do occur as returned VALUES)",
     "an explicit asyncio_fn is a faithful asyncio version of the function (here: it logs and awaits the undecorated "
     "function's .asyncio())",
+    "asynq.result(x) of a future-like x asserts on both engines alike and is not generated",
 ]
 CASE_TIMEOUT = 30
 CONVS = ["call", "value", "aio", "aiorun", "aiotask"]
@@ -64,16 +83,21 @@ AFN_KINDS = ("gen", "meth", "proxy", "plain")
 
 # ---------------------------------------------------------------------------------------------------
 # program language (JSON):
-#   prog := ["ret", tag] | ["res", tag] | ["raise", e] | ["reraise"] | ["yld", ys, k, h] | ["sync", call, child, k, h]
+#   prog := ["ret", tag] | ["res", tag] | ["raise", e] | ["raiseB", e] | ["reraise"] | ["yld", ys, k, h] | ["yldB", ys, k, h]
+#           | ["sync", call, child, k, h]
+#           (raiseB: an error whose class derives from BaseException only; yldB: the handler is `except BaseException`)
 #   ys   := "none" | "junk" | ["const", v] | ["pconst", v] | ["task", call, prog] | ["tup", ys...] | ["lst", ys...]
 #           | ["dict", [key, ys]...]
 #   call := [kind, afn(0/1), label]
 # ---------------------------------------------------------------------------------------------------
 
+YLD = ("yld", "yldB")
+
+
 def has_yield(p):
     """does the body itself (not its children) contain a yield?"""
     op = p[0]
-    if op == "yld":
+    if op in YLD:
         return True
     if op == "sync":
         return has_yield(p[3]) or has_yield(p[4])
@@ -81,28 +105,31 @@ def has_yield(p):
 
 
 def walk_progs(p):
-    """all sub-programs, children included"""
-    yield p
-    if p[0] == "yld":
-        for q in walk_ys_progs(p[1]):
-            yield from walk_progs(q)
-        yield from walk_progs(p[2])
-        yield from walk_progs(p[3])
-    elif p[0] == "sync":
-        yield from walk_progs(p[2])
-        yield from walk_progs(p[3])
-        yield from walk_progs(p[4])
+    """all sub-programs, children included (iterative: programs of the size families are thousands of levels deep)"""
+    stack = [p]
+    while stack:
+        p = stack.pop()
+        yield p
+        if p[0] in YLD:
+            stack.append(p[3])
+            stack.append(p[2])
+            stack.extend(reversed(list(walk_ys_progs(p[1]))))
+        elif p[0] == "sync":
+            stack.append(p[4])
+            stack.append(p[3])
+            stack.append(p[2])
 
 
 def walk_ys(y):
-    yield y
-    if isinstance(y, list):
-        if y[0] in ("tup", "lst"):
-            for x in y[1:]:
-                yield from walk_ys(x)
-        elif y[0] == "dict":
-            for _, x in y[1:]:
-                yield from walk_ys(x)
+    stack = [y]
+    while stack:
+        y = stack.pop()
+        yield y
+        if isinstance(y, list):
+            if y[0] in ("tup", "lst"):
+                stack.extend(reversed(y[1:]))
+            elif y[0] == "dict":
+                stack.extend(x for _, x in reversed(y[1:]))
 
 
 def walk_ys_progs(y):
@@ -119,10 +146,15 @@ def has_sync(p):
     return any(q[0] == "sync" for q in walk_progs(p))
 
 
+def has_base_handler_and_raise(p):
+    ops = {q[0] for q in walk_progs(p)}
+    return "yldB" in ops and "raiseB" in ops
+
+
 def count_tasks(p):
     n = 0
     for q in walk_progs(p):
-        if q[0] == "yld":
+        if q[0] in YLD:
             n += sum(1 for x in walk_ys(q[1]) if isinstance(x, list) and x[0] == "task")
         elif q[0] == "sync":
             n += 1
@@ -130,10 +162,20 @@ def count_tasks(p):
 
 
 class Gen(object):
-    def __init__(self, rng, budget):
+    def __init__(self, rng, budget, p_exotic=0.0, p_wide=0.0):
         self.rng = rng
         self.budget = budget      # tasks still allowed
         self.next_label = 1
+        self.p_exotic = p_exotic  # probability that a returned value is of an unusual kind (VALUE_KINDS)
+        self.p_wide = p_wide      # probability that a structure has 5-40 entries
+        self.p_base = 0.0         # probability that a raised error is BaseException-only
+        self.p_bh = 0.0           # probability that a handler is `except BaseException`
+
+    def tag(self):
+        rng = self.rng
+        if self.p_exotic and rng.random() < self.p_exotic:
+            return 10 * rng.randrange(1, len(VALUE_KINDS)) + rng.randint(0, 9)
+        return rng.randint(0, 9)
 
     def label(self):
         n = self.next_label
@@ -155,15 +197,19 @@ class Gen(object):
         rng = self.rng
         r = rng.random()
         if r < p_res:
-            return ["res", rng.randint(0, 9)]
+            t = self.tag()
+            # asynq.result(x) asserts that x is not a future (on both engines alike): not part of the language
+            return ["res", t % 10 if VALUE_KINDS[t // 10] == "constfuture" else t]
         r = rng.random()
         if in_handler and r < 0.3:
             return ["reraise"]
         if r < 0.25 or (not in_handler and r < 0.32):
+            if self.p_base and rng.random() < self.p_base:
+                return ["raiseB", rng.randint(1, 5)]
             return ["raise", rng.randint(1, 5)]
         if r < 0.36:
             return ["reraise"]
-        return ["ret", rng.randint(0, 9)]
+        return ["ret", self.tag()]
 
     def prog(self, depth, steps, in_handler=False, p_res=0.04, p_sync=0.05):
         rng = self.rng
@@ -179,7 +225,7 @@ class Gen(object):
         y = self.ys(depth, 0, p_res, p_sync)
         k = self.prog(depth, steps - 1, in_handler, p_res, p_sync)
         h = self.handler(depth, steps - 1, p_res, p_sync)
-        return ["yld", y, k, h]
+        return ["yldB" if (self.p_bh and h != ["reraise"] and rng.random() < self.p_bh) else "yld", y, k, h]
 
     def handler(self, depth, steps, p_res, p_sync):
         rng = self.rng
@@ -195,10 +241,12 @@ class Gen(object):
         r = rng.random()
         if nest < 3 and r < (0.55 if nest == 0 else 0.22):
             n = rng.choices([0, 1, 2, 3, 4], weights=[1, 3, 5, 4, 2])[0]
+            if self.p_wide and rng.random() < self.p_wide:
+                n = rng.randint(5, 40)
             els = [self.ys(depth, nest + 1, p_res, p_sync) for _ in range(n)]
             shape = rng.choice(["tup", "lst", "dict"])
             if shape == "dict":
-                keys = rng.sample(range(20), n)
+                keys = rng.sample(range(max(20, 2 * n)), n)
                 return ["dict"] + [[k, e] for k, e in zip(keys, els)]
             return [shape] + els
         r = rng.random()
@@ -218,9 +266,17 @@ class Gen(object):
         return ["task", self.call_for(body), body]
 
 
+# generate programs in which a handler that catches BaseException meets a BaseException-only error of an awaited child:
+# fn(args) runs the handler, fn.asyncio(args) never delivers the error to the body (theorem C15_base_handler_counterexample)
+GEN_BASE_DEFECT = True
+
+
 def gen_case(rng, budget=None):
     budget = budget if budget is not None else rng.choice([1, 2, 3, 4, 6, 8, 10, 14])
-    g = Gen(rng, budget)
+    g = Gen(rng, budget, p_exotic=rng.choice([0.0, 0.0, 0.1, 0.3, 0.6]), p_wide=rng.choice([0.0, 0.0, 0.0, 0.05, 0.3]))
+    # BaseException-only errors with `except Exception` handlers (both engines let them through to the caller), handlers that
+    # catch BaseException without such errors, and - rarely - both together (where the engines differ: GEN_BASE_DEFECT)
+    g.p_base, g.p_bh = rng.choice([(0, 0)] * 10 + [(0.3, 0)] * 3 + [(0, 0.4)] * 2 + ([(0.3, 0.4)] if GEN_BASE_DEFECT else []))
     p_res = rng.choice([0.0, 0.0, 0.0, 0.05, 0.15])
     p_sync = rng.choice([0.0, 0.0, 0.05, 0.15])
     body = g.prog(0, rng.randint(1, 4), False, p_res, p_sync)
@@ -230,7 +286,7 @@ def gen_case(rng, budget=None):
     else:
         kind = rng2.choice(["plain", "plain", "gen", "meth", "proxy"])
     afn = 1 if (kind in AFN_KINDS and rng2.random() < 0.3) else 0
-    return {"top": [[kind, afn, 0], body]}
+    return usage({"top": [[kind, afn, 0], body]}, rng2)
 
 
 def delay(g, n, term):
@@ -296,6 +352,222 @@ def family():
         cases.append({"top": [["gen", 0, 0], ["yld", ["task", ["gen", 0, 2], ["sync", [kind, 0, 1], ["raise", 4], ["ret", 1], ["reraise"]]],
                                               ["ret", 1], ["ret", 2]]]})
     cases.append({"top": [["plain", 0, 0], ["sync", ["gen", 0, 1], ["ret", 4], ["ret", 1], ["ret", 2]]]})
+    # BaseException-only errors; every handler is `except Exception`: both engines let the error through to the caller
+    for kind in KINDS:
+        for afn in (0, 1):
+            if afn and kind not in AFN_KINDS:
+                continue
+            cases.append({"top": [[kind, afn, 0], ["raiseB", 1]]})
+            child = ["task", [kind, afn, 1], ["raiseB", 2]]
+            cases.append({"top": [["gen", 0, 0], ["yld", child, ["ret", 1], ["ret", 2]]]})
+            cases.append({"top": [["gen", 0, 0], ["yld", ["lst", ["const", 3], child], ["ret", 1], ["ret", 2]]]})
+    for shape in ("dict", "lst", "tup"):
+        g = Gen(random.Random(0), 0)
+        g.next_label = 10
+        slow_b = ["task", ["gen", 0, 1], delay(g, 2, ["raiseB", 1])]
+        quick_e = ["task", ["meth", 0, 2], ["raise", 2]]
+        slow_ok = ["task", ["gen", 0, 3], delay(g, 3, ["ret", 3])]
+        # a task that the base error passes through, beside an ordinary failure that comes first in structure order
+        through = ["task", ["gen", 0, 4], ["yld", ["task", ["proxy", 0, 5], ["yld", "none", ["raiseB", 3], ["reraise"]]],
+                                           ["ret", 1], ["ret", 2]]]
+        for els in ([slow_b, quick_e, slow_ok], [quick_e, slow_b, slow_ok], [slow_ok, slow_b], [quick_e, through], [through, quick_e]):
+            y = ["dict"] + [[k, e] for k, e in zip((5, 2, 9), els)] if shape == "dict" else [shape] + els
+            for h in (["reraise"], ["ret", 2]):
+                cases.append({"top": [["gen", 0, 0], ["yld", y, ["ret", 1], h]]})
+            cases.append({"top": [["gen", 0, 0], ["yld", ["tup", ["const", 1], y], ["ret", 1], ["ret", 2]]]})
+    cases.append({"top": [["gen", 0, 0], ["sync", ["gen", 0, 1], ["raiseB", 4], ["ret", 1], ["ret", 2]]]})
+    # a handler that catches BaseException, but only ordinary errors around
+    cases.append({"top": [["gen", 0, 0], ["yldB", ["lst", ["task", ["gen", 0, 1], ["raise", 2]]], ["ret", 1], ["ret", 2]]]})
+    cases.append({"top": [["gen", 0, 0], ["yldB", ["task", ["gen", 0, 1], ["ret", 2]], ["ret", 1], ["ret", 2]]]})
+    if GEN_BASE_DEFECT:
+        # ... and where it meets a BaseException-only error: the engines differ (C15_base_handler_counterexample)
+        cases.append({"top": [["gen", 0, 0], ["yldB", ["task", ["gen", 0, 1], ["raiseB", 1]], ["ret", 1], ["ret", 2]]]})
+        cases.append({"top": [["gen", 0, 0], ["yldB", ["lst", ["task", ["gen", 0, 1], ["raiseB", 1]], ["const", 2]], ["ret", 1], ["reraise"]]]})
+    return cases
+
+
+# ---------------------------------------------------------------------------------------------------
+# parametrised families: the SIZE is a parameter of the case ({"fam": name, ...}); the program is built from it inside the
+# worker (`expand`), so that thresholds (more than N awaitables yielded together, N nesting levels, N resumptions of one
+# generator, a chain of N tasks) are crossed by construction and a failing case shrinks to the smallest size that fails
+# ---------------------------------------------------------------------------------------------------
+
+WIDE_SIZES = {
+    "quick": [5, 8, 9, 16, 17, 31, 32, 33, 50, 63, 64, 65, 100, 101, 127, 128, 129, 130, 200, 255, 256, 257, 300, 511, 513],
+    "thorough": [5, 6, 7, 8, 9, 10, 12, 15, 16, 17, 20, 25, 31, 32, 33, 40, 50, 63, 64, 65, 99, 100, 101, 127, 128, 129, 130,
+                 150, 199, 200, 201, 255, 256, 257, 300, 400, 500, 511, 512, 513, 1000, 1023, 1024, 1025, 2049],
+}
+DEEP_SIZES = {"quick": [4, 5, 6, 8, 9, 16, 17, 33, 64, 100], "thorough": [4, 5, 6, 7, 8, 9, 10, 16, 17, 32, 33, 64, 65, 100, 200]}
+LONG_SIZES = {"quick": [5, 10, 33, 100, 257, 1001], "thorough": [5, 10, 20, 33, 64, 100, 129, 257, 513, 1001, 2500]}
+CHAIN_SIZES = {"quick": [6, 7, 10, 17, 33, 65, 100], "thorough": [6, 7, 8, 10, 17, 33, 65, 100, 150, 200]}
+
+
+def fam_wide(f):
+    """one yield of a list / tuple / dict with n entries (tasks of several kinds, a few constants), the entries at the
+    positions `bad` fail after one round trip; optionally one nesting level down; with or without a handler"""
+    n, shape, bad, h, nest = f["n"], f.get("shape", "lst"), set(f.get("bad", [])), f.get("h", 1), f.get("nest", 0)
+    vk = f.get("vk", 0)
+    els = []
+    for i in range(n):
+        label = i + 1
+        if i in bad:
+            els.append(["task", ["gen", 0, label], ["yld", "none", ["raise", 1 + i % 5], ["reraise"]]])
+        elif i % 11 == 5:
+            els.append(["const", i])
+        elif i % 7 == 3:
+            els.append(["task", ["plain", 0, label], ["ret", 10 * vk + i % 10]])
+        else:
+            kind = ("gen", "meth", "gen", "proxy", "pure")[i % 5]
+            els.append(["task", [kind, 1 if (i % 13 == 6 and kind in AFN_KINDS) else 0, label],
+                        ["yld", "none", ["ret", 10 * vk + i % 10], ["reraise"]]])
+    y = ["dict"] + [[i, e] for i, e in enumerate(els)] if shape == "dict" else [shape] + els
+    if nest:
+        y = ["tup", ["const", 1], y, ["task", ["gen", 0, n + 1], ["yld", "none", ["ret", 3], ["reraise"]]]]
+    handler = (["reraise"], ["ret", 2], ["yld", ["task", ["gen", 0, n + 2], ["ret", 7]], ["ret", 3], ["reraise"]])[h]
+    return [[f.get("kind", "gen"), 0, 0], ["yld", y, ["ret", 1], handler]]
+
+
+def fam_deep(f):
+    """a structure nested d levels deep (list in tuple in dict in ...), a sibling on every level; the innermost entry and /
+    or the sibling on level `failat` fail"""
+    d, failat, leaf = f["d"], f.get("failat", -1), f.get("leaf", "ok")
+    lab = [0]
+
+    def task(body):
+        lab[0] += 1
+        return ["task", ["gen", 0, lab[0]], body]
+    y = task(["yld", "none", ["raise", 1], ["reraise"]] if leaf == "fail" else ["ret", 1])
+    for lvl in range(d, 0, -1):     # built inside out: lvl = depth of the container being added
+        if lvl == failat:
+            sib = task(["raise", 2])
+        elif lvl % 3 == 0:
+            sib = task(["yld", "none", ["ret", lvl % 10], ["reraise"]])
+        else:
+            sib = ["const", lvl]
+        shape = ("lst", "tup", "dict")[lvl % 3]
+        # the deeper structure comes first on even levels, second on odd levels
+        pair = [y, sib] if lvl % 2 == 0 else [sib, y]
+        y = ["dict", [1, pair[0]], [0, pair[1]]] if shape == "dict" else [shape] + pair
+    return [["gen", 0, 0], ["yld", y, ["ret", 1], ["ret", 2] if f.get("h", 1) else ["reraise"]]]
+
+
+def fam_long(f):
+    """one generator resumed n times: bare tasks, constants, gathered pairs, failures caught by a handler that goes on"""
+    n = f["n"]
+    p = ["ret", 1] if not f.get("fail") else ["raise", 4]
+    label = 3 * n + 3
+    for i in range(n, 0, -1):
+        m = i % 6
+        label -= 3
+        if m == 0:
+            p = ["yld", ["task", ["gen", 0, label], ["ret", i % 10]], p, ["reraise"]]
+        elif m == 1:
+            p = ["yld", ["const", i], p, ["reraise"]]
+        elif m == 2:      # a failure, caught; the handler carries on
+            p = ["yld", ["lst", ["task", ["gen", 0, label], ["ret", 2]], ["task", ["meth", 0, label + 1], ["raise", 1 + i % 5]]],
+                 ["ret", 0], p]
+        elif m == 3:
+            p = ["yld", "none", p, ["reraise"]]
+        elif m == 4:
+            p = ["yld", ["tup", ["task", ["plain", 0, label], ["ret", 3]], ["pconst", i]], p, ["reraise"]]
+        else:             # a bare failing task, caught
+            p = ["yld", ["task", ["proxy", 0, label], ["yld", "none", ["raise", 2], ["reraise"]]], ["ret", 0], p]
+    return [[f.get("kind", "gen"), 0, 0], p]
+
+
+def fam_chain(f):
+    """a chain of d tasks, each yielding the next (bare, or beside a constant in a list); the last one returns or raises;
+    every `catch`-th level catches and returns"""
+    d, fail, catch, gathered = f["d"], f.get("fail", 0), f.get("catch", 0), f.get("gathered", 0)
+    p = ["raise", 3] if fail else ["ret", 5]
+    for lvl in range(d, 0, -1):
+        kind = ("gen", "meth", "proxy", "pure", "gen")[lvl % 5]
+        afn = 1 if (lvl % 7 == 2 and kind in AFN_KINDS) else 0
+        t = ["task", [kind, afn, lvl], p]
+        y = ["lst", ["const", lvl], t] if (gathered and lvl % 2 == 0) else t
+        h = ["ret", 8] if (catch and lvl % catch == 0) else ["reraise"]
+        p = ["yld", y, ["ret", lvl % 10], h]
+    return [["gen", 0, 0], p]
+
+
+FAMILIES = {"wide": fam_wide, "deep": fam_deep, "long": fam_long, "chain": fam_chain}
+SIZE_KEY = {"wide": "n", "deep": "d", "long": "n", "chain": "d"}
+
+
+def expand(case):
+    """(call, program) of a case"""
+    if "top" in case:
+        return case["top"]
+    return FAMILIES[case["fam"]](case)
+
+
+def size_family(tier, rng):
+    cases = []
+    for n in WIDE_SIZES[tier]:
+        # an early failure (everything else has to finish first), two late failures, no failure, and a random variant
+        cases.append({"fam": "wide", "n": n, "shape": "lst", "bad": [min(3, n - 1)], "h": 1})
+        cases.append({"fam": "wide", "n": n, "shape": "dict", "bad": [n // 2, n - 1], "h": 2, "kind": "meth"})
+        cases.append({"fam": "wide", "n": n, "shape": "tup", "bad": [], "h": 0, "vk": rng.randrange(len(VALUE_KINDS))})
+        k = rng.choice([1, 1, 2, 3])
+        cases.append({"fam": "wide", "n": n, "shape": rng.choice(["lst", "tup", "dict"]),
+                      "bad": sorted(rng.sample(range(n), min(k, n))), "h": rng.randrange(3), "nest": rng.randrange(2),
+                      "vk": rng.choice([0, rng.randrange(len(VALUE_KINDS))])})
+    for d in DEEP_SIZES[tier]:
+        cases.append({"fam": "deep", "d": d, "leaf": "ok"})
+        cases.append({"fam": "deep", "d": d, "leaf": "fail"})
+        cases.append({"fam": "deep", "d": d, "leaf": rng.choice(["ok", "fail"]), "failat": rng.randint(1, d), "h": rng.randrange(2)})
+    for n in LONG_SIZES[tier]:
+        cases.append({"fam": "long", "n": n})
+        cases.append({"fam": "long", "n": n, "fail": 1, "kind": "meth"})
+    for d in CHAIN_SIZES[tier]:
+        cases.append({"fam": "chain", "d": d})
+        cases.append({"fam": "chain", "d": d, "fail": 1, "catch": 0, "gathered": 1})
+        cases.append({"fam": "chain", "d": d, "fail": 1, "catch": rng.choice([2, 3, 5]), "gathered": rng.randrange(2)})
+    for c in cases:
+        usage(c, rng)
+    return cases
+
+
+def usage(case, rng):
+    """how the decorated functions are used by the five ways of running: fresh ones for each / the same ones for all five in
+    a random order (no scheduler reset in between); first use / second use (the observed run repeats a dropped one)"""
+    if rng.random() < 0.5:
+        case["share"] = 1
+        order = list(range(len(CONVS)))
+        rng.shuffle(order)
+        case["order"] = order
+    if rng.random() < 0.25:
+        case["warm"] = 1
+    return case
+
+
+def value_family():
+    """every kind of returned object x the places a value travels through: the top-level result, a bare yield, a list,
+    a tuple / dict beside a failing and a succeeding sibling (handler or not), one nesting level down, through
+    asynq.result(), out of every kind of function"""
+    cases = []
+    for k in range(1, len(VALUE_KINDS)):
+        t = 10 * k
+        child = ["task", ["gen", 0, 1], ["yld", "none", ["ret", t + 1], ["reraise"]]]
+        quick = ["task", ["plain", 0, 2], ["ret", t + 2]]
+        viares = ["task", ["meth", 0, 3], ["yld", ["const", 1], ["ret" if VALUE_KINDS[k] == "constfuture" else "res", t + 3],
+                                           ["reraise"]]]
+        fails = ["task", ["gen", 0, 4], ["yld", "none", ["raise", 2], ["reraise"]]]
+        cases.append({"top": [["gen", 0, 0], ["ret", t]]})
+        cases.append({"top": [["plain", 0, 0], ["ret", t]]})
+        cases.append({"top": [["gen", 0, 0], ["yld", child, ["ret", t + 4], ["ret", 2]]]})
+        cases.append({"top": [["gen", 0, 0], ["yld", ["lst", child], ["ret", 1], ["ret", 2]]]})
+        cases.append({"top": [["gen", 0, 0], ["yld", ["lst", quick, child, viares], ["ret", 1], ["ret", 2]]]})
+        cases.append({"top": [["meth", 0, 0], ["yld", ["tup", child, fails, quick], ["ret", 1], ["ret", 2]]]})
+        cases.append({"top": [["gen", 0, 0], ["yld", ["dict", [4, quick], [2, ["tup", ["const", 1], ["lst", child]]], [9, viares]],
+                                              ["ret", 1], ["reraise"]]]})
+        for kind in ("proxy", "pure", "meth"):
+            for afn in (0, 1):
+                if afn and kind not in AFN_KINDS:
+                    continue
+                cases.append({"top": [["gen", 0, 0], ["yld", ["tup", ["task", [kind, afn, 6], ["yld", "none", ["ret", t + 5], ["reraise"]]],
+                                                              ["const", 3]], ["ret", 1], ["ret", 2]]]})
+                cases.append({"top": [[kind, afn, 0], ["yld", ["const", 3], ["ret", t + 6], ["reraise"]]]})
     return cases
 
 
@@ -313,7 +585,12 @@ def corpus():
 def plan(tier, seed):
     rng = random.Random(seed * 1000003 + 15)
     n = 5000 if tier == "quick" else 50000
-    cases = corpus() + family()
+    fixed = family() + value_family()
+    rng_u = random.Random(seed * 1000003 + 17)
+    for c in fixed:
+        usage(c, rng_u)
+    cases = corpus() + fixed
+    cases += size_family(tier, random.Random(seed * 1000003 + 16))
     cases += [gen_case(rng) for _ in range(n)]
     return cases
 
@@ -359,17 +636,21 @@ def shrink_ys(y):
 
 def shrink_prog(p):
     op = p[0]
-    if op == "yld":
+    if op in YLD:
         yield p[2]
         yield p[3]
+        if op == "yldB":
+            yield ["yld", p[1], p[2], p[3]]
         if p[3] != ["reraise"]:
             yield ["yld", p[1], p[2], ["reraise"]]
         for y2 in shrink_ys(p[1]):
-            yield ["yld", y2, p[2], p[3]]
+            yield [op, y2, p[2], p[3]]
         for k2 in shrink_prog(p[2]):
-            yield ["yld", p[1], k2, p[3]]
+            yield [op, p[1], k2, p[3]]
         for h2 in shrink_prog(p[3]):
-            yield ["yld", p[1], p[2], h2]
+            yield [op, p[1], p[2], h2]
+    elif op == "raiseB":
+        yield ["raise", p[1]]
     elif op == "sync":
         yield p[3]
         yield p[4]
@@ -382,28 +663,94 @@ def shrink_prog(p):
         for h2 in shrink_prog(p[4]):
             yield ["sync", p[1], p[2], p[3], h2]
     elif op in ("ret", "res") and p[1] != 0:
-        yield [op, 0]
+        if p[1] >= 10:
+            yield [op, p[1] % 10]          # a plain object instead of the unusual one
+            if p[1] % 10:
+                yield [op, p[1] - p[1] % 10]
+        else:
+            yield [op, 0]
+
+
+def prog_size(p):
+    return sum(1 for _ in walk_progs(p))
+
+
+def shrink_usage(case):
+    if case.get("warm"):
+        yield {k: v for k, v in case.items() if k != "warm"}
+    if case.get("share"):
+        yield {k: v for k, v in case.items() if k not in ("share", "order")}
+        if case.get("order") and case["order"] != sorted(case["order"]):
+            yield dict(case, order=sorted(case["order"]))
+
+
+def shrink_fam(case):
+    """smaller parameters of a family case (the size first: the smallest size that still fails is the threshold)"""
+    key = SIZE_KEY[case["fam"]]
+    n = case[key]
+
+    def with_size(m):
+        c = dict(case)
+        c[key] = m
+        if "bad" in c:
+            c["bad"] = sorted({min(b, m - 1) for b in c["bad"]})
+        if c.get("failat", -1) > m:
+            c["failat"] = m
+        return c
+    seen = set()
+    for m in (1, 2, 3, n // 2, (3 * n) // 4, n - 16, n - 4, n - 1):
+        if 1 <= m < n and m not in seen:
+            seen.add(m)
+            yield with_size(m)
+    for k, simple in (("nest", 0), ("vk", 0), ("h", 1), ("kind", "gen"), ("gathered", 0), ("catch", 0), ("failat", -1)):
+        if k in case and case[k] != simple:
+            yield dict(case, **{k: simple})
+    if len(case.get("bad", [])) > 1:
+        for b in case["bad"]:
+            yield dict(case, bad=[b])
+    for b in case.get("bad", []):
+        if b > 0:
+            yield dict(case, bad=sorted(set(case["bad"]) - {b} | {0}))
+            yield dict(case, bad=sorted(set(case["bad"]) - {b} | {b // 2}))
+    if n <= 6:
+        # small enough: go on with the program itself
+        yield {"top": expand(case)}
 
 
 def shrink(case):
+    yield from shrink_usage(case)
+    if "fam" in case:
+        yield from shrink_fam(case)
+        return
+    rest = {k: v for k, v in case.items() if k != "top"}
     c, p = case["top"]
     # a child task promoted to the top
     for q in walk_progs(p):
-        if q[0] == "yld":
+        if q[0] in YLD:
             for x in walk_ys(q[1]):
                 if isinstance(x, list) and x[0] == "task":
-                    yield {"top": [[x[1][0], x[1][1], 0], x[2]]}
+                    yield dict(rest, top=[[x[1][0], x[1][1], 0], x[2]])
     if c[1]:
-        yield {"top": [[c[0], 0, c[2]], p]}
+        yield dict(rest, top=[[c[0], 0, c[2]], p])
     if c[0] not in ("gen", "plain"):
-        yield {"top": [["gen", c[1], c[2]], p]}
+        yield dict(rest, top=[["gen", c[1], c[2]], p])
     for q in shrink_prog(p):
         if c[0] == "plain" and has_yield(q):
             continue
-        yield {"top": [c, q]}
+        yield dict(rest, top=[c, q])
 
 
 def neighbours(case, rng):
+    if "fam" in case:
+        key = SIZE_KEY[case["fam"]]
+        for q in shrink(case):
+            yield q
+        for m in (case[key] + 1, case[key] + 2, 2 * case[key]):
+            yield dict(case, **{key: m})
+        for k in ("share", "warm"):
+            yield dict(case, **{k: 0 if case.get(k) else 1})
+        return
+    rest = {k: v for k, v in case.items() if k != "top"}
     c, p = case["top"]
     for kind in KINDS:
         if kind == "plain" and has_yield(p):
@@ -411,7 +758,7 @@ def neighbours(case, rng):
         for afn in (0, 1):
             if afn and kind not in AFN_KINDS:
                 continue
-            yield {"top": [[kind, afn, 0], p]}
+            yield dict(rest, top=[[kind, afn, 0], p])
     for q in shrink(case):
         yield q
     # fresh programs; never introduce asynq.result() (a known, separate failure) into the neighbourhood of a program
@@ -427,8 +774,11 @@ def neighbours(case, rng):
 
 def signature(case, v):
     clause = v.get("spec", "ok")
-    if has_res(case["top"][1]) and clause in ("fail:result-escapes", "fail:siblings-complete"):
-        # one defect, two faces: AsyncTaskResult leaves .asyncio() as an exception / a parent abandoned by it never finishes
+    if clause == "fail:equiv" and has_base_handler_and_raise(expand(case)[1]):
+        # a BaseException-only error of an awaited child is not delivered to the body by convert_asynq_to_async
+        return "base-exception-not-delivered-to-handler"
+    if clause == "fail:result-escapes" and has_res(expand(case)[1]):
+        # AsyncTaskResult leaves .asyncio() as an exception (repaired in /repo; the signature of the former finding is kept)
         return "asynq.result()-escapes-asyncio"
     return clause
 
@@ -438,27 +788,145 @@ def signature(case, v):
 # ---------------------------------------------------------------------------------------------------
 
 def sx(x):
-    if isinstance(x, (list, tuple)):
-        return "(" + " ".join(sx(i) for i in x) + ")"
-    if x is True:
-        return "1"
-    if x is False:
-        return "0"
-    if x is None:
-        return "none"
-    return str(x)
+    """S-expression of nested lists (iterative: programs and values can be thousands of levels deep)"""
+    out = []
+    stack = [x]
+    close = object()
+    first = True
+    while stack:
+        x = stack.pop()
+        if x is close:
+            out.append(")")
+            first = False
+            continue
+        if not first:
+            out.append(" ")
+        if isinstance(x, (list, tuple)):
+            out.append("(")
+            stack.append(close)
+            stack.extend(reversed(x))
+            first = True
+            continue
+        first = False
+        if x is True:
+            out.append("1")
+        elif x is False:
+            out.append("0")
+        elif x is None:
+            out.append("none")
+        else:
+            out.append(str(x))
+    return "".join(out)
+
+
+# kinds of Python object a body returns for `ret tag` / `res tag`: kind = VALUE_KINDS[tag // 10] (tags 0-9: a plain object).
+# The token of every one of them is (node tag kids...): the bridge has to carry a returned value as an opaque object,
+# whatever its class (Lean: Asyncio.valueKind; the theorems quantify over every tag).
+VALUE_KINDS = ["plain", "exc", "baseexc", "cancelled", "stopiter", "falsy", "len0", "boolraises", "eqhostile",
+               "tupsub", "lstsub", "dictsub", "awaitable", "constfuture"]
 
 
 class Node(object):
-    __slots__ = ("tag", "kids")
+    """a returned value: a free term over everything the body received"""
+    _is_node = True
 
-    def __init__(self, tag, kids):
+    def __init__(self, tag=0, kids=()):
         self.tag = tag
         self.kids = kids
 
 
+_NODE_CLASSES = {}
+
+
+def node_class(kind):
+    """the class of the objects of a value kind (built lazily: some need asyncio / asynq)"""
+    cls = _NODE_CLASSES.get(kind)
+    if cls is not None:
+        return cls
+    import asyncio
+
+    import asynq
+
+    def raiser(msg):
+        def f(self, *a):
+            raise ArithmeticError(msg)
+        return f
+
+    if kind == "plain":
+        cls = Node
+    elif kind == "exc":            # an Exception instance carried as a VALUE ("collect the errors, don't raise them")
+        cls = type("ExcNode", (Node, Exception), {"__init__": Node.__init__})
+    elif kind == "baseexc":        # a BaseException-only instance as a value
+        cls = type("BaseExcNode", (Node, BaseException), {"__init__": Node.__init__})
+    elif kind == "cancelled":      # an asyncio.CancelledError instance as a value
+        cls = type("CancelledNode", (Node, asyncio.CancelledError), {"__init__": Node.__init__})
+    elif kind == "stopiter":       # a StopIteration instance as a value
+        cls = type("StopIterNode", (Node, StopIteration), {"__init__": Node.__init__})
+    elif kind == "falsy":
+        cls = type("FalsyNode", (Node,), {"__bool__": lambda self: False})
+    elif kind == "len0":
+        cls = type("Len0Node", (Node,), {"__len__": lambda self: 0})
+    elif kind == "boolraises":
+        cls = type("BoolRaisesNode", (Node,), {"__bool__": raiser("truth value of a result taken")})
+    elif kind == "eqhostile":
+        cls = type("EqHostileNode", (Node,), {"__eq__": raiser("result compared"), "__ne__": raiser("result compared"),
+                                              "__hash__": None, "__repr__": raiser("repr of a result taken")})
+    elif kind == "tupsub":         # subclasses of the built-in containers, as VALUES (not yielded)
+        class TupNode(tuple):
+            _is_node = True
+
+            def __new__(c, tag=0, kids=()):
+                self = tuple.__new__(c, kids)
+                self.tag = tag
+                self.kids = kids
+                return self
+        cls = TupNode
+    elif kind == "lstsub":
+        class LstNode(list):
+            _is_node = True
+
+            def __init__(self, tag=0, kids=()):
+                list.__init__(self, kids)
+                self.tag = tag
+                self.kids = kids
+        cls = LstNode
+    elif kind == "dictsub":
+        class DictNode(dict):
+            _is_node = True
+
+            def __init__(self, tag=0, kids=()):
+                dict.__init__(self, enumerate(kids))
+                self.tag = tag
+                self.kids = kids
+        cls = DictNode
+    elif kind == "awaitable":      # a value that happens to be awaitable must not be awaited again
+        cls = type("AwaitableNode", (Node,), {"__await__": raiser("a result was awaited a second time")})
+    elif kind == "constfuture":    # a value that happens to be a future must not be unwrapped
+        class FutNode(asynq.ConstFuture):
+            _is_node = True
+
+            def __init__(self, tag=0, kids=()):
+                asynq.ConstFuture.__init__(self, 424242)
+                self.tag = tag
+                self.kids = kids
+        cls = FutNode
+    else:
+        raise ValueError(kind)
+    _NODE_CLASSES[kind] = cls
+    return cls
+
+
+def mk_node(tag, kids):
+    k = tag // 10
+    return node_class(VALUE_KINDS[k] if k < len(VALUE_KINDS) else "plain")(tag, tuple(kids))
+
+
 class UserError(Exception):
     pass
+
+
+class BaseUserError(BaseException):
+    """an error that is not an `Exception` (the harness's stand-in for a user-defined BaseException subclass)"""
 
 
 class IllFormed(Exception):
@@ -479,7 +947,9 @@ class Harness(object):
         self.log = []
         self.finished = set()
         self.err = {}
+        self.berr = {}
         self.err_tok = {}
+        self.track = False        # set by run(): the program raises BaseException-only errors
         H = self
 
         @asynq.asynq()
@@ -550,6 +1020,7 @@ class Harness(object):
             return Node(0, ())
 
         self.inst = K()
+        self.unbound = {0: K.meth, 1: K.meth_afn}
         self.canary = canary
         self.pconst_fn = pconst_fn
         self.pure_fn = pure_fn
@@ -568,6 +1039,16 @@ class Harness(object):
             self.err_tok[id(e)] = ["u", n]
         return e
 
+    def get_berr(self, n):
+        e = self.berr.get(n)
+        if e is None:
+            e = self.berr[n] = BaseUserError("user base error %d" % n)
+            self.err_tok[id(e)] = ["b", n]
+        return e
+
+    def is_base(self, e):
+        return isinstance(e, BaseUserError)
+
     def etok(self, e):
         t = self.err_tok.get(id(e))
         if t is not None:
@@ -580,16 +1061,16 @@ class Harness(object):
         return ["other", type(e).__name__]
 
     def vtok(self, v, depth=0):
-        if depth > 60:
+        if depth > 3000:
             return ["other", "deep"]
+        if getattr(type(v), "_is_node", False):
+            return ["node", v.tag] + [self.vtok(k, depth + 1) for k in v.kids]
         if v is None:
             return "none"
         if isinstance(v, bool):
             return ["other", "bool"]
         if isinstance(v, int):
             return ["a", v]
-        if isinstance(v, Node):
-            return ["node", v.tag] + [self.vtok(k, depth + 1) for k in v.kids]
         if type(v) is tuple:
             return ["tup"] + [self.vtok(k, depth + 1) for k in v]
         if type(v) is list:
@@ -612,26 +1093,68 @@ class Harness(object):
             self.emit(["bad", "receiver", label])
 
     # ------------------------------------------------------------------ calls
-    def make(self, c, p):
-        """child.asynq(args): an AsyncTask - or, in asyncio mode, a coroutine"""
+    # The label of a call site also selects HOW the public API is used there (the model is the same for all of them):
+    #   label % 2 == 1      the body is passed as a keyword argument
+    #   label % 4 >= 2      a method is reached through the class (K.meth.asynq(inst, ...)) instead of the instance
+    #   label % 5 == 3      child.asynq(...) / child.asyncio(...) go through asynq.async_call (an
+    #                       @async_proxy(asyncio_fn=asyncio_call) of the library); plain synchronous calls do not
+    def target(self, c, p):
         kind, afn, label = c
         if kind == "pure":
-            return self.pure_fn(label, p)
-        return self.fns[(kind, afn)].asynq(label, p)
+            fn = self.pure_fn
+            args = ()
+        elif kind == "meth" and label % 4 >= 2:
+            fn = self.unbound[afn]
+            args = (self.inst,)
+        else:
+            fn = self.fns[(kind, afn)]
+            args = ()
+        if label % 2 == 1:
+            return fn, args + (label,), {"body": p}
+        return fn, args + (label, p), {}
+
+    def make(self, c, p):
+        """child.asynq(args): an AsyncTask - or, in asyncio mode, a coroutine"""
+        fn, args, kwargs = self.target(c, p)
+        if c[2] % 5 == 3:
+            return self.tracked(self.asynq.async_call.asynq(fn, *args, **kwargs), c[2])
+        if c[0] == "pure":
+            return self.tracked(fn(*args, **kwargs), c[2])
+        return self.tracked(fn.asynq(*args, **kwargs), c[2])
+
+    def tracked(self, obj, label):
+        """In asyncio mode a BaseException-only error is never thrown into the generator of a task it passes through (the
+        generator is abandoned), so the body cannot log the end of its task: the coroutine the library returned is
+        awaited by a wrapper that does.  Only used for programs that raise such errors."""
+        from collections.abc import Awaitable
+
+        # (a compiled build returns Cython coroutines: inspect.iscoroutine() does not know them)
+        if not self.track or not isinstance(obj, Awaitable) or isinstance(obj, self.asynq.FutureBase):
+            return obj
+        H = self
+
+        async def wrapper():
+            try:
+                return await obj
+            except BaseException as e:
+                if H.is_base(e) and label not in H.finished:
+                    H.fin(label, ["err", H.etok(e)])
+                raise
+        return wrapper()
 
     def sync_call(self, c, p):
         """child(args): a plain synchronous call"""
-        kind, afn, label = c
-        if kind == "pure":
-            return self.pure_fn(label, p).value()
-        return self.fns[(kind, afn)](label, p)
+        fn, args, kwargs = self.target(c, p)
+        if c[0] == "pure":
+            return fn(*args, **kwargs).value()
+        return fn(*args, **kwargs)
 
     def acall(self, c, p):
         """child.asyncio(args)"""
-        kind, afn, label = c
-        if kind == "pure":
-            return self.pure_fn.asyncio(label, p)
-        return self.fns[(kind, afn)].asyncio(label, p)
+        fn, args, kwargs = self.target(c, p)
+        if c[2] % 5 == 3:
+            return self.tracked(self.asynq.async_call.asyncio(fn, *args, **kwargs), c[2])
+        return self.tracked(fn.asyncio(*args, **kwargs), c[2])
 
     def build(self, y, labels):
         if y == "none":
@@ -664,22 +1187,26 @@ class Harness(object):
         while True:
             op = body[0]
             if op == "ret":
-                v = Node(body[1], tuple(env))
+                v = mk_node(body[1], env)
                 self.fin(label, ["ok", self.vtok(v)])
                 return v
             elif op == "res":
-                v = Node(body[1], tuple(env))
+                v = mk_node(body[1], env)
                 self.fin(label, ["ok", self.vtok(v)])
                 asynq.result(v)
             elif op == "raise":
                 e = self.get_err(body[1])
                 self.fin(label, ["err", self.etok(e)])
                 raise e
+            elif op == "raiseB":
+                e = self.get_berr(body[1])
+                self.fin(label, ["err", self.etok(e)])
+                raise e
             elif op == "reraise":
                 e = caught if caught is not None else self.get_err(0)
                 self.fin(label, ["err", self.etok(e)])
                 raise e
-            elif op == "yld":
+            elif op in YLD:
                 if not gen:
                     self.fin(label, ["err", ["other", "IllFormed"]])
                     raise IllFormed("a function that is not a generator cannot yield")
@@ -687,7 +1214,16 @@ class Harness(object):
                 y = self.build(body[1], labels)
                 try:
                     v = yield y
-                except Exception as e:
+                except GeneratorExit:
+                    raise          # the generator was abandoned and is being closed: not an event of the program
+                except BaseException as e:
+                    if not isinstance(e, Exception):
+                        if not self.is_base(e):
+                            raise  # the harness's own business (watchdog, KeyboardInterrupt)
+                        if op != "yldB":
+                            # `except Exception` does not catch it: the task fails with it
+                            self.fin(label, ["err", self.etok(e)])
+                            raise
                     recv = ["err", self.etok(e)]
                     caught = e
                     body = body[3]
@@ -705,6 +1241,11 @@ class Harness(object):
                     r = ["err", self.etok(e)]
                     caught = e
                     nxt = body[4]
+                except BaseException as e:
+                    if self.is_base(e):
+                        self.emit(["syncX", label, ["err", self.etok(e)]])
+                        self.fin(label, ["err", self.etok(e)])
+                    raise
                 else:
                     r = ["ok", self.vtok(v)]
                     env.append(v)
@@ -731,6 +1272,8 @@ class Harness(object):
             return ["esc", self.vtok(e.result)]
         except Exception as e:
             return ["err", self.etok(e)]
+        except BaseUserError as e:
+            return ["err", self.etok(e)]
         return ["ok", self.vtok(v)]
 
     def exc_outcome(self, e):
@@ -738,7 +1281,7 @@ class Harness(object):
             raise e
         if isinstance(e, self.asynq.AsyncTaskResult):
             return ["esc", self.vtok(e.result)]
-        if isinstance(e, Exception):
+        if isinstance(e, (Exception, BaseUserError)):
             return ["err", self.etok(e)]
         return ["err", ["other", type(e).__name__]]
 
@@ -749,9 +1292,19 @@ class Harness(object):
             return self.exc_outcome(e)
         return ["ok", self.vtok(v)]
 
-    def run(self, conv, c, p):
+    def fresh_log(self):
+        self.log = []
+        self.finished = set()
+
+    def run(self, conv, c, p, warm=False):
+        """warm: the same computation has been run once before - by the same functions, and for `aio` on the same event
+        loop - and its observations dropped: what is observed is the SECOND use"""
         asyncio = self.asyncio
         mode = self.mode
+        self.track = any(q[0] == "raiseB" for q in walk_progs(p))
+        if warm and conv in ("call", "value", "aiorun"):
+            self.run(conv, c, p)
+            self.fresh_log()
         if conv == "call":
             before = bool(mode())
             out = self.outcome(lambda: self.sync_call(c, p))
@@ -764,6 +1317,9 @@ class Harness(object):
             can = self.outcome(self.canary)
         elif conv == "aio":
             async def session():
+                if warm:
+                    await self.aoutcome(self.acall(c, p))
+                    self.fresh_log()
                 b = bool(mode())
                 o = await self.aoutcome(self.acall(c, p))
                 a = bool(mode())
@@ -782,6 +1338,11 @@ class Harness(object):
             can = self.outcome(self.canary)
         elif conv == "aiotask":
             async def session():
+                if warm:
+                    t0 = asyncio.ensure_future(self.acall(c, p))
+                    await asyncio.wait([t0])
+                    t0.exception()
+                    self.fresh_log()
                 b = bool(mode())
                 seen = False
                 t = asyncio.ensure_future(self.acall(c, p))
@@ -805,19 +1366,34 @@ def run_case(case):
     import asynq
     import asynq.scheduler
 
-    c, p = case["top"]
+    c, p = expand(case)
     lines = ["(case asyncio %d %s)" % (case["id"], sx(["task", c, p]))]
     outs = {}
     logs = {}
+    obs = {}
+    share = bool(case.get("share"))
+    warm = bool(case.get("warm"))
+    order = case.get("order") or list(range(len(CONVS)))
+    if sorted(order) != list(range(len(CONVS))):
+        raise IllFormed("bad order %r" % (order,))
+    H = None
     with warnings.catch_warnings():
         warnings.simplefilter("ignore")
-        for conv in CONVS:
-            asynq.scheduler.reset()
-            H = Harness()
-            ob = H.run(conv, c, p)
+        for idx in order:
+            conv = CONVS[idx]
+            if H is None or not share:
+                # a fresh set of decorated functions and a clean scheduler for every way of running ...
+                asynq.scheduler.reset()
+                H = Harness()
+            else:
+                # ... or ONE set of functions, error instances and one thread state used by all five, in the given order
+                H.fresh_log()
+            ob = H.run(conv, c, p, warm)
+            obs[conv] = ob
             outs[conv] = ob[3]
             logs[conv] = ob[6]
-            lines.append(sx(ob))
+    for conv in CONVS:
+        lines.append(sx(obs[conv]))
     lines.append("(end)")
     # ---- features -----------------------------------------------------------------------------------
     ntasks = 1 + count_tasks(p)
@@ -825,7 +1401,7 @@ def run_case(case):
     kinds = set()
     shapes = set()
     for q in walk_progs(p):
-        if q[0] == "yld":
+        if q[0] in YLD:
             for x in walk_ys(q[1]):
                 if isinstance(x, list):
                     if x[0] == "task":
@@ -838,11 +1414,33 @@ def run_case(case):
                     shapes.add("yield=" + x)
             if q[3] != ["reraise"]:
                 shapes.add("handler" + ("-yields" if has_yield(q[3]) else ""))
+            if q[0] == "yldB":
+                shapes.add("handler-catches-BaseException")
         elif q[0] == "sync":
             kinds.add("sync=" + q[1][0])
         elif q[0] == "res":
             shapes.add("result()")
+        elif q[0] == "raiseB":
+            shapes.add("raises-BaseException-only-error")
     feats += sorted(kinds) + sorted(shapes)
+    width = 0
+    depth = 0
+    for q in walk_progs(p):
+        if q[0] in YLD:
+            for x in walk_ys(q[1]):
+                if isinstance(x, list) and x[0] in ("tup", "lst", "dict"):
+                    width = max(width, len(x) - 1)
+            depth = max(depth, ys_depth(q[1]))
+        elif q[0] in ("ret", "res") and q[1] >= 10 and q[1] // 10 < len(VALUE_KINDS):
+            feats.append("value=" + VALUE_KINDS[q[1] // 10])
+    feats = sorted(set(feats))
+    feats.append("width<=%d" % next(b for b in (4, 16, 64, 128, 256, 512, 1024, 10 ** 9) if width <= b))
+    feats.append("nesting<=%d" % next(b for b in (1, 2, 3, 8, 32, 10 ** 9) if depth <= b))
+    if "fam" in case:
+        feats.append("family=" + case["fam"])
+    feats.append("functions=" + ("shared-by-the-five-runs" if case.get("share") else "fresh-per-run"))
+    if case.get("warm"):
+        feats.append("second-use-observed")
     feats.append("out-call=" + outs["call"][0])
     feats.append("out-aio=" + outs["aio"][0])
     delivered_failure = any(e[0] == "run" and e[5][0] == "err" for e in logs["aio"])
@@ -850,12 +1448,23 @@ def run_case(case):
         feats.append("failure-delivered-at-yield")
     if any(e[0] == "syncX" for e in logs["aio"]):
         feats.append("sync-call-attempted-in-asyncio")
-    nested = any(isinstance(x, list) and x[0] in ("tup", "lst", "dict") and any(
-        isinstance(z, list) and z[0] in ("tup", "lst", "dict") for z in (x[1:] if x[0] != "dict" else [w[1] for w in x[1:]]))
-        for q in walk_progs(p) if q[0] == "yld" for x in walk_ys(q[1]))
-    if nested:
+    if depth >= 2:
         feats.append("nested-structure")
     nontrivial = None
-    if ntasks >= 2 and (delivered_failure or nested):
-        nontrivial = hashlib.sha1(json.dumps(case["top"]).encode()).hexdigest()[:16]
+    if ntasks >= 2 and (delivered_failure or depth >= 2):
+        key = {k: v for k, v in case.items() if k != "id"}
+        nontrivial = hashlib.sha1(json.dumps(key, sort_keys=True).encode()).hexdigest()[:16]
     return {"lines": lines, "features": feats, "nontrivial": nontrivial}
+
+
+def ys_depth(y):
+    """nesting depth of the containers of a yielded structure (iterative)"""
+    best = 0
+    stack = [(y, 0)]
+    while stack:
+        y, d = stack.pop()
+        if isinstance(y, list) and y[0] in ("tup", "lst", "dict"):
+            best = max(best, d + 1)
+            for x in (y[1:] if y[0] != "dict" else [w[1] for w in y[1:]]):
+                stack.append((x, d + 1))
+    return best
